@@ -73,6 +73,27 @@ theorem C18_empty_refused (t : Table) (code : List Ch) (h : lex code = []) :
     parse t code = .error (.syntax 1) := by
   simp [parse, h, process, run, PState.init, step, order, bind, Except.bind, pure, Except.pure, liftP]
 
+/-- an unknown meta-variable is refused by the static verification: a `#name` is accepted only if
+    it is a documented meta-variable or a loop marker -/
+theorem C18_hashvar_refused (name : String)
+    (h : hashvarAccepted Ptera.Generated.Tables.validHashvars name = true) :
+    name ∈ Ptera.Generated.Tables.validHashvars ∨
+    isPrefixOf "#loop_".toList name.toList = true ∨ isPrefixOf "#endloop_".toList name.toList = true := by
+  unfold hashvarAccepted at h
+  simp only [Bool.or_eq_true, List.contains_eq_mem, decide_eq_true_eq] at h
+  rcases h with (h | h) | h
+  · exact Or.inr (Or.inl h)
+  · exact Or.inr (Or.inr h)
+  · exact Or.inl h
+
+/-- in particular a name that merely extends a documented one is refused -/
+theorem C18_hashvar_extension_refused :
+    hashvarAccepted Ptera.Generated.Tables.validHashvars "#values" = false ∧
+    hashvarAccepted Ptera.Generated.Tables.validHashvars "#entered" = false ∧
+    hashvarAccepted Ptera.Generated.Tables.validHashvars "#loop" = false ∧
+    hashvarAccepted Ptera.Generated.Tables.validHashvars "#loop_i" = true ∧
+    hashvarAccepted Ptera.Generated.Tables.validHashvars "#value" = true := by decide
+
 /-! ties to the source (regenerated on every run) -/
 
 def sameKeys (a b : List (String × String)) : Bool :=
